@@ -17,9 +17,10 @@ CKINDS = ["builtin", "builtin2", "module", "nested", "baseonly", "custominit", "
 AKINDS = ["none", "json", "picklable", "unpicklable", "socket", "unreprable", "mixed", "const", "loadfail", "localscalar", "nocopy"]
 ENCS = ["json", "dict", "pickle"]
 FOREIGN = ["func", "cls", "inst", "module", "nested_cls", "nested_func", "os_system", "eval", "object",
-           "own_func", "own_cls", "own_factory", "own_exc_mod_func", "wrapped_func", "exc_method", "exc_inner_cls", "partial_inst"]
+           "own_func", "own_cls", "own_factory", "own_exc_mod_func", "wrapped_func", "exc_method", "exc_inner_cls", "partial_inst", "own_pkg_cls", "own_pkg_func"]
 GOOD = ["exc", "nested_exc", "builtin_exc", "baseonly", "custominit", "sub_exc", "mixed"]
-SYNTH = ["missing_attr", "missing_nested", "deep_missing", "lazy", "lazy_sub", "cold_pkg", "nomod", "nomodule_field", "nomodule_dotted", "nomodule_builtin_name"]
+SYNTH = ["nomodule_issubclass", "nomodule_isinstance", "missing_attr", "missing_nested", "deep_missing", "lazy", "lazy_sub", "cold_pkg", "nomod",
+         "nomodule_field", "nomodule_dotted", "nomodule_builtin_name", "unimportable", "emptymod", "relmod"]
 
 
 def _drive_batch(scn: Dict[str, Any]) -> Dict[str, Any]:
@@ -65,7 +66,7 @@ def gen_c19(seed: int, tier: str) -> List[Dict[str, Any]]:
              for _ in range(n)]
         cases.append({"g": g, "enc": rng.choice(ENCS), "root": rng.randint(1, n)})
     for _ in range(60 if q else 1500):
-        n = rng.randint(5, 6)
+        n = rng.randint(5, 8)
         g = []
         for i in range(1, n + 1):
             link = i + 1 if i < n else rng.choice([0, 1, rng.randint(1, n)])
@@ -93,7 +94,7 @@ def gen_c20(seed: int, tier: str) -> List[Dict[str, Any]]:
     for entry in ("direct", "validate", "json"):
         cases.append({"p": {"t": "lazy", "a": "one"}, "entry": entry, "then_import": True})
     for t in allk:
-        if t not in ("nomodule_field", "nomodule_dotted", "nomodule_builtin_name"):
+        if not t.startswith("nomodule_"):
             cases.append({"p": {"t": t, "a": "one"}, "entry": "validate", "wrap": True})
     for _ in range(300 if tier == "quick" else 8000):
         def rnd(d: int) -> Dict[str, Any]:
